@@ -343,7 +343,7 @@ def gramSchmidOrth( A, alignVec=None ):
         curVec = A[ :, i ]
         normCurVec = np.linalg.norm( curVec )
         normAlignVec = np.linalg.norm( alignVec )
-        if np.isclose( np.dot( curVec, alignVec ) / ( normCurVec * normAlignVec ), 1.0 ):
+        if np.isclose( abs( np.dot( curVec, alignVec ) ) / ( normCurVec * normAlignVec ), 1.0 ):
             # alignVec replaces the i-th column: keep the other columns after it
             B[ :, 1: ] = np.delete( A, i, axis=1 )
     
